@@ -616,3 +616,241 @@ def f5_all(tier):
     t["with"] = {"items": "<% ctx(xs) %>", "concurrency": 1}
     out.append(scn("F5/retry-items", WF({"t": t}, input=["xs"]), "F5", inputs={"xs": [0, 1]}))
     return out
+
+
+# ----------------------------------------------------------------------------- F6 publish placements
+RES = "<% result() %>"
+UNIQ = {"*": [["succeeded", "$uniq"], ["failed", "$uniq"]]}
+
+
+def f6_defs(tier):
+    V = [{"u": "u0"}, {"v": "v0"}]
+    OUT = [{"u": "<% ctx(u) %>"}, {"v": "<% ctx(v) %>"}]
+    out = []
+
+    def add(name, tasks):
+        out.append((name, WF(tasks, vars=V, output=OUT)))
+
+    # fork/join, one branch publishes
+    add("fj-one", {
+        "a": T([N(S, ["b", "c"])]),
+        "b": T([N(S, "j", publish=[("v", RES)])]),
+        "c": T([N(S, "j")]),
+        "j": T([N(S, "t")], join="all"), "t": T()})
+    # both publish disjoint variables
+    add("fj-disjoint", {
+        "a": T([N(S, ["b", "c"])]),
+        "b": T([N(S, "j", publish=[("u", RES)])]),
+        "c": T([N(S, "j", publish=[("v", RES)])]),
+        "j": T([N(S, "t")], join="all"), "t": T()})
+    # both publish the same variable (independent values: later arrival wins)
+    add("fj-conflict", {
+        "a": T([N(S, ["b", "c"])]),
+        "b": T([N(S, "j", publish=[("v", RES)])]),
+        "c": T([N(S, "j", publish=[("v", RES)])]),
+        "j": T([N(S, "t")], join="all"), "t": T()})
+    # ancestor publishes, one branch republishes, the other merely inherits
+    add("fj-inherit", {
+        "a": T([N(S, "p", publish=[("v", RES)])]),
+        "p": T([N(S, ["b", "c"])]),
+        "b": T([N(S, "j", publish=[("v", RES)])]),
+        "c": T([N(S, "j")]),
+        "j": T([N(S, "t")], join="all"), "t": T()})
+    # ancestor publishes on the forking transition itself
+    add("fj-inherit-fork", {
+        "a": T([N(S, ["b", "c"], publish=[("v", RES)])]),
+        "b": T([N(S, "j", publish=[("v", RES)])]),
+        "c": T([N(S, "j")]),
+        "j": T([N(S, "t")], join="all"), "t": T()})
+    # separate transitions, publish only on one: sibling must not see it
+    add("sibling-transitions", {
+        "a": T([N(S, "b", publish=[("u", RES)]), N(S, "c", publish=[("v", RES)])]),
+        "b": T(), "c": T()})
+    # chain then fork, publishes along the chain (sequential overwrite)
+    add("chain-overwrite", {
+        "a": T([N(S, "b", publish=[("v", RES)])]),
+        "b": T([N(S, "c", publish=[("v", RES), ("u", "<% ctx(v) %>")])]),
+        "c": T()})
+    # three-way fan-in with tail
+    add("fj3-tail", {
+        "a": T([N(S, ["b", "c", "d"])]),
+        "b": T([N(S, "j", publish=[("v", RES)])]),
+        "c": T([N(S, "j", publish=[("u", RES)])]),
+        "d": T([N(S, "j")]),
+        "j": T([N(S, "t", publish=[("u", "<% ctx(v) %>")])], join="all"), "t": T()})
+    # multi-referenced task: each lineage sees its own value
+    add("split-own-lineage", {
+        "a": T([N(S, "s", publish=[("v", RES)])]),
+        "b": T([N(S, "s", publish=[("v", RES)])]),
+        "s": T([N(S, "t")]), "t": T()})
+    # decision with handlers publishing different variables
+    add("decide-publish", {
+        "a": T([N(S, "b", publish=[("u", RES)]), N(F, "c", publish=[("v", RES)])]),
+        "b": T(), "c": T()})
+    # failure remediated: publish on the failure path reaches the join
+    add("fj-remediate", {
+        "a": T([N(S, ["b", "c"])]),
+        "b": T([N(S, "j", publish=[("v", RES)]), N(F, "j", publish=[("u", RES)])]),
+        "c": T([N(S, "j")]),
+        "j": T(join="all")})
+    # loop: counter and a variable republished each iteration
+    lw = loop_wf(2, 1)
+    lw["vars"] = [{"n": 0}, {"v": "v0"}]
+    lw["tasks"]["l0"]["next"][0]["publish"].append({"v": RES})
+    lw["output"] = [{"v": "<% ctx(v) %>"}, {"n": "<% ctx(n) %>"}]
+    out.append(("loop-publish", lw))
+    if tier != "quick":
+        add("fj-two-level", {
+            "a": T([N(S, ["b", "c"], publish=[("u", RES)])]),
+            "b": T([N(S, ["b1", "b2"], publish=[("v", RES)])]),
+            "b1": T([N(S, "jb", publish=[("v", RES)])]),
+            "b2": T([N(S, "jb")]),
+            "jb": T([N(S, "j")], join="all"),
+            "c": T([N(S, "j", publish=[("u", RES)])]),
+            "j": T(join="all")})
+    return out
+
+
+def f6_publish(tier):
+    return [scn("F6/" + n, wf, "F6", outcomes=UNIQ) for n, wf in f6_defs(tier)]
+
+
+# ----------------------------------------------------------------------------- fixed outcome assignments (C08)
+def _acyclic(wf):
+    from vx.refdef import RefDef
+
+    return not RefDef(wf).has_cycle()
+
+
+def assignments(task_names, max_full=5):
+    names = list(task_names)
+    if len(names) <= max_full:
+        for bits in itertools.product((0, 1), repeat=len(names)):
+            yield {n: b for n, b in zip(names, bits)}
+    else:
+        yield {n: 0 for n in names}
+        for x in names:
+            yield {n: (1 if n == x else 0) for n in names}
+        for x, y in itertools.combinations(names, 2):
+            yield {n: (1 if n in (x, y) else 0) for n in names}
+
+
+def fixed_outcome_scenarios(base, uniq=False, max_full=5):
+    out = []
+    for s in base:
+        if not _acyclic(s.wf):
+            continue
+        names = list(s.wf["tasks"].keys())
+        for asg in assignments(names, max_full=max_full):
+            oc = {}
+            for n, fbit in asg.items():
+                r = "$uniq" if uniq else None
+                oc[n] = [["failed" if fbit else "succeeded", r]]
+            tag = "".join("F" if asg[n] else "S" for n in names)
+            out.append(
+                Scenario(s.name + "@" + tag, s.wf, inputs=s.inputs, outcomes=oc, family=s.family, meta=dict(s.meta))
+            )
+    return out
+
+
+BIG_PATTERNS = ("split-nested", "fanin-in-split", "-m3-", "-m4-", "fj3-tail", "fj-two-level", "items-n4", "items-n3-knone",
+                "items-n3-k4")
+
+
+def is_big(s):
+    return any(p in s.name for p in BIG_PATTERNS) or s.meta.get("big")
+
+
+# ----------------------------------------------------------------------------- FX expression positions (C11)
+BAD_EXPRS = {
+    # kind -> {lang: expression}; all of them pass inspection when d (a dict) and n (an int) are defined
+    "missing_key": {"yaql": "<% ctx(d).nokey %>", "jinja": "{{ ctx('d').nokey }}"},
+    "wrong_type": {"yaql": "<% ctx(n) + 'x' %>", "jinja": "{{ ctx('n') + 'x' }}"},
+    "unknown_function": {"yaql": "<% nosuchfn() %>", "jinja": "{{ nosuchfn() }}"},
+    "zero_division": {"yaql": "<% 1 / (ctx(n) - 1) %>", "jinja": "{{ 1 / (ctx('n') - 1) }}"},
+}
+
+FX_POSITIONS = (
+    "input", "vars", "action", "task_input", "items", "concurrency", "delay",
+    "retry_when", "retry_count", "retry_delay", "when", "publish", "output",
+)
+
+
+def fx_host(position, expr):
+    """a -> b -> c with a parallel z -> y; the expression sits in task b (or at workflow level)."""
+    base_vars = [{"d": {"a": 1}}, {"n": 1}, {"xs": [1, 2]}]
+    b = T([N(S, "c")])
+    wf_kw = {"vars": list(base_vars)}
+    trig = {"kind": "dispatch", "task": "b"}
+    if position == "input":
+        wf_kw = {"input": [{"d": {"a": 1}}, {"n": 1}, {"xs": [1, 2]}, {"x": expr}]}
+        trig = {"kind": "start", "task": None}
+    elif position == "vars":
+        wf_kw["vars"] = base_vars + [{"x": expr}]
+        trig = {"kind": "start", "task": None}
+    elif position == "action":
+        b["action"] = expr
+    elif position == "task_input":
+        b["input"] = {"p": expr}
+    elif position == "items":
+        b["with"] = {"items": expr}
+    elif position == "concurrency":
+        b["with"] = {"items": "<% ctx(xs) %>", "concurrency": expr}
+    elif position == "delay":
+        b["delay"] = expr
+    elif position == "retry_when":
+        b["retry"] = {"count": 1, "when": expr}
+        trig = {"kind": "complete", "task": "b", "only_if_status": list(("running", "resuming", "pausing", "canceling"))}
+    elif position == "retry_count":
+        b["retry"] = {"count": expr}
+    elif position == "retry_delay":
+        b["retry"] = {"count": 1, "delay": expr}
+    elif position == "when":
+        b["next"] = [N(expr, "c")]
+        trig = {"kind": "complete", "task": "b", "transition": True}
+    elif position == "publish":
+        b["next"] = [N(S, "c", publish=[("x", expr)])]
+        trig = {"kind": "complete", "task": "b", "transition": True, "status": "succeeded"}
+    elif position == "output":
+        wf_kw["output"] = [{"x": expr}]
+        trig = {"kind": "render", "task": None}
+    tasks = {"a": T([N(S, "b")]), "b": b, "c": T(), "z": T([N(S, "y")]), "y": T()}
+    return WF(tasks, **wf_kw), trig
+
+
+def fx_loop_host(position, expr):
+    """The failing position sits in a loop body and fails only on the second iteration
+    (n becomes 1 => 1/(n-1) fails; missing key after d is republished)."""
+    return None
+
+
+def fx_all(tier):
+    out = []
+    for pos in FX_POSITIONS:
+        for kind, langs in BAD_EXPRS.items():
+            if tier == "quick" and kind == "zero_division":
+                continue
+            for lang, expr in langs.items():
+                wf, trig = fx_host(pos, expr)
+                meta = {"trigger": trig, "position": pos, "kind": kind, "lang": lang}
+                out.append(scn("FX/%s-%s-%s" % (pos, kind, lang), wf, "FX", meta=meta))
+    # an expression that fails only on a later loop iteration (zero division once n == 1)
+    for lang in ("yaql", "jinja"):
+        e = BAD_EXPRS["zero_division"][lang]
+        lw = loop_wf(2, 1)
+        lw["tasks"]["l0"]["input"] = {"p": e.replace("ctx(n) - 1", "ctx(n) - 1").replace("ctx('n') - 1", "ctx('n') - 1")}
+        meta = {"trigger": {"kind": "dispatch", "task": "l0", "iteration": 2}, "position": "task_input_loop",
+                "kind": "zero_division", "lang": lang}
+        out.append(scn("FX/loop-task_input-%s" % lang, lw, "FX", meta=meta))
+    # undefined variable at a join: published only on the success path of one branch
+    for lang, expr in (("yaql", "<% ctx(zz) %>"), ("jinja", "{{ ctx('zz') }}")):
+        wf = WF({
+            "a": T([N(S, ["b", "c"])]),
+            "b": T([N(S, "j", publish=[("zz", 1)]), N(F, "j")]),
+            "c": T([N(S, "j")]),
+            "j": T(join="all", input={"p": expr}),
+        })
+        meta = {"trigger": {"kind": "dispatch", "task": "j", "needs_failed": "b"}, "position": "task_input_join",
+                "kind": "undefined_variable", "lang": lang}
+        out.append(scn("FX/join-undefined-%s" % lang, wf, "FX", meta=meta))
+    return out
